@@ -1251,8 +1251,8 @@ func (api *API) ResizeAbort() error {
 		return errors.Wrap(err, "validating api method")
 	}
 
-	err := api.cluster.completeCurrentJob(resizeJobStateAborted)
-	return errors.Wrap(err, "complete current job")
+	err := api.cluster.abortCurrentJob()
+	return errors.Wrap(err, "aborting current job")
 }
 
 // GetTranslateData provides a reader for key translation logs starting at offset.
